@@ -34,7 +34,13 @@
 (* order; `for k in d.keys(): d.pop(k)` raises RuntimeError after the first *)
 (* pop.                                                                    *)
 (* The consumer raises from on_join for member values in rj and from       *)
-(* on_leave for values in rl (a policy fixed per behaviour).                *)
+(* on_leave for values in rl (a policy fixed per behaviour).  It BLOCKS in  *)
+(* on_join for values in bj and in on_leave for values in bl: the           *)
+(* notification worker is parked inside the callback (it is the worker's    *)
+(* greenlet that runs it) until the environment lets the callback return    *)
+(* (action Return); a callback that blocks and raises raises when it        *)
+(* returns.  _members is updated the way the code does it: all new members  *)
+(* first, then one pop right before every on_leave.                         *)
 (* The property machine ZkAbs is folded over the callbacks of every step;   *)
 (* `viol` keeps the first failing clause.                                   *)
 (*                                                                         *)
@@ -59,7 +65,8 @@ CONSTANTS Names,      \* member node names: 1..N
                       \* (one instance registering again under a new node name)
           MaxEnv,     \* length bound of the tree history
           MaxInc,     \* how many times the path may be created
-          MaxRaise    \* size bound of the raising policy
+          MaxRaise,   \* size bound of the raising policy
+          MaxBlock    \* size bound of the blocking policy
 
 FixPD == "ZKFIX_PD" \in DOMAIN IOEnv   \* parent deletion goes through the worker queue
 FixVM == "ZKFIX_VM" \in DOMAIN IOEnv   \* the worker diffs listings against _members
@@ -70,6 +77,10 @@ NoInv == "ZKFIX_NOINV" \in DOMAIN IOEnv
 \* a plausible wrong design ("make before break": the joins of a listing are delivered before its
 \* leaves), also only a generator of regression histories
 JoinsFirst == "ZKFIX_JBL" \in DOMAIN IOEnv
+\* a plausible wrong design ("a wedged consumer must not hold up membership updates for ever": every callback runs
+\* under a gevent.Timeout, which is a BaseException and passes `except Exception`): when the time of a blocked
+\* callback is up (action Expire) the notification worker dies; also only a generator of regression histories
+CbTimeout == "ZKFIX_TO" \in DOMAIN IOEnv
 \* another plausible wrong design ("nothing to report while no member is announced": _data_changed(None)
 \* queues the empty listing only when _members is non-empty, otherwise it just resets _nodes), also only a
 \* generator of regression histories: it loses the deletion of the path when that falls between the reads
@@ -78,10 +89,11 @@ LazyEmpty == "ZKFIX_LZ" \in DOMAIN IOEnv
 
 VARIABLES parent, pinc, kids, dataW, childW,   \* server
           c,                                   \* client (record, see Init)
-          rj, rl,                              \* consumer policy
+          rj, rl, bj, bl,                      \* consumer policy (raising, blocking)
           envn, lastAct, viol
 svars == <<parent, pinc, kids, dataW, childW>>
-vars == <<svars, c, rj, rl, envn, lastAct, viol, ast>>
+pol == <<rj, rl, bj, bl>>
+vars == <<svars, c, pol, envn, lastAct, viol, ast>>
 
 Data == [m \in Names |-> ((m - 1) % NValues) + 1]
 Values == {Data[m] : m \in Names}
@@ -90,7 +102,7 @@ GIds == {"IG", "CW"} \cup SGs
 
 Sorted(S) == SetToSortSeq(S, LAMBDA a, b : a < b)
 G0 == [pc |-> "dead", iv |-> 0, k |-> 0]
-NW0 == [pc |-> "qget", removed |-> {}, todo |-> <<>>, got |-> <<>>, kids |-> {}]
+NW0 == [pc |-> "qget", removed |-> {}, todo |-> <<>>, got |-> <<>>, kids |-> {}, rest |-> <<>>]
 
 \* ------------------------------------------------------------------ small helpers
 Issue(s, g) == [s EXCEPT !.reqs = Append(@, g)]
@@ -214,15 +226,24 @@ CWLoop(s) ==
   ELSE CWRun([s EXCEPT !.cbq = Tail(@), !.gl["CW"] = [G0 EXCEPT !.pc = "run"]], Head(s.cbq))
 
 \* the notification worker
+\* the callbacks of one batch, one at a time: `rest` = the events still to come (a Leave pops its member from
+\* _members right before the call); a blocking callback parks the worker (pc "cb") with the rest
+Blocks(e) == (e.e = "Join" /\ e.d \in bj) \/ (e.e = "Leave" /\ e.d \in bl)
+RECURSIVE NWDeliver(_, _)
+NWDeliver(s, evs) ==
+  IF evs = <<>> THEN NWLoop([s EXCEPT !.nw = NW0])
+  ELSE LET e == Head(evs)
+           s1 == Emit(IF e.e = "Leave" THEN [s EXCEPT !.members = SelectSeq(@, LAMBDA m : m # e.m)] ELSE s, <<e>>)
+       IN IF Blocks(e) THEN [s1 EXCEPT !.nw = [NW0 EXCEPT !.pc = "cb", !.rest = Tail(evs)]]
+          ELSE NWDeliver(s1, Tail(evs))
 NWFinish(s) ==
   LET got == s.nw.got
       mem1 == s.members \o SelectSeq(got, LAMBDA m : m \notin Range(s.members))
       rem == Sorted(s.nw.removed)
       leaving == SelectSeq(rem, LAMBDA m : m \in Range(mem1))
-      mem2 == SelectSeq(mem1, LAMBDA m : m \notin s.nw.removed)
       evs == IF JoinsFirst THEN Flat(MapSeq(got, JoinEvs)) \o Flat(MapSeq(leaving, LeaveEvs))
              ELSE Flat(MapSeq(leaving, LeaveEvs)) \o Flat(MapSeq(got, JoinEvs))
-  IN NWLoop(Emit([s EXCEPT !.members = mem2, !.nw = NW0], evs))
+  IN NWDeliver([s EXCEPT !.members = mem1], evs)
 NWRead(s) == IF s.nw.todo = <<>> THEN NWFinish(s) ELSE Issue([s EXCEPT !.nw.pc = "rd"], "NW")
 NWBatch(s, b) ==
   IF FixVM
@@ -270,13 +291,16 @@ Init ==
           reqs |-> <<"IG">>, runq |-> <<>>, out |-> <<>>, over |-> FALSE]
   /\ rj \in SUBSET Values /\ rl \in SUBSET Values
   /\ Cardinality(rj) + Cardinality(rl) <= MaxRaise
+  /\ bj \in SUBSET Values /\ bl \in SUBSET Values
+  /\ Cardinality(bj) + Cardinality(bl) <= MaxBlock
   /\ envn = 0
   /\ lastAct = <<"Init", 0>>
   /\ viol = "ok"
   /\ AInit
 
 \* ------------------------------------------------------------------ steps
-Quiescent(s) == s.reqs = <<>>
+\* nothing in flight: no request pending and no consumer callback still running
+Quiescent(s) == s.reqs = <<>> /\ s.nw.pc # "cb"
 
 \* fold the tree event and the callbacks of the cascade through ZkAbs, then the
 \* quiescence check
@@ -298,7 +322,7 @@ PCreate ==
   /\ c' = Cascade(Dispatch(Fresh, DCb))
   /\ Judge(<<Mk("PCreate", 0, 0)>>, c')
   /\ envn' = envn + 1 /\ lastAct' = <<"PCreate", 0>>
-  /\ UNCHANGED <<rj, rl>>
+  /\ UNCHANGED pol
 
 PDelete ==
   /\ parent /\ kids = {} /\ envn < MaxEnv
@@ -307,7 +331,7 @@ PDelete ==
   /\ c' = Cascade(Dispatch(Fresh, DCb \o CbsOf(childW)))
   /\ Judge(<<Mk("PDelete", 0, 0)>>, c')
   /\ envn' = envn + 1 /\ lastAct' = <<"PDelete", 0>>
-  /\ UNCHANGED <<rj, rl>>
+  /\ UNCHANGED pol
 
 ZCreate(m) ==
   /\ parent /\ m \notin kids /\ envn < MaxEnv
@@ -317,7 +341,7 @@ ZCreate(m) ==
   /\ c' = Cascade(Dispatch(Fresh, CbsOf(childW)))
   /\ Judge(<<Mk("ZCreate", m, Data[m])>>, c')
   /\ envn' = envn + 1 /\ lastAct' = <<"ZCreate", m>>
-  /\ UNCHANGED <<rj, rl>>
+  /\ UNCHANGED pol
 
 ZDelete(m) ==
   /\ m \in kids /\ envn < MaxEnv
@@ -326,7 +350,7 @@ ZDelete(m) ==
   /\ c' = Cascade(Dispatch(Fresh, CbsOf(childW)))
   /\ Judge(<<Mk("ZDelete", m, Data[m])>>, c')
   /\ envn' = envn + 1 /\ lastAct' = <<"ZDelete", m>>
-  /\ UNCHANGED <<rj, rl>>
+  /\ UNCHANGED pol
 
 \* the server answers the oldest request of the session
 Serve ==
@@ -355,22 +379,39 @@ Serve ==
                                 /\ UNCHANGED dataW
   /\ Judge(<<>>, c')
   /\ lastAct' = <<"Serve", 0>>
-  /\ UNCHANGED <<parent, pinc, kids, rj, rl, envn>>
+  /\ UNCHANGED <<parent, pinc, kids, pol, envn>>
 
-Next == PCreate \/ PDelete \/ Serve \/ \E m \in Names : ZCreate(m) \/ ZDelete(m)
+\* the blocked consumer callback returns (raising now, if it is a raising one: that event is the head of `rest`)
+Return ==
+  /\ c.nw.pc = "cb"
+  /\ c' = Cascade(NWDeliver([Fresh EXCEPT !.nw.pc = "run"], c.nw.rest))
+  /\ Judge(<<>>, c')
+  /\ lastAct' = <<"Return", 0>>
+  /\ UNCHANGED <<svars, pol, envn>>
+
+\* weaker design only: the time allowed for a callback is up, the Timeout passes every `except Exception`,
+\* the worker greenlet is dead (nothing reads the notification queue any more)
+Expire ==
+  /\ CbTimeout /\ c.nw.pc = "cb"
+  /\ c' = [Fresh EXCEPT !.nw = [NW0 EXCEPT !.pc = "dead"]]
+  /\ Judge(<<>>, c')
+  /\ lastAct' = <<"Expire", 0>>
+  /\ UNCHANGED <<svars, pol, envn>>
+
+Next == PCreate \/ PDelete \/ Serve \/ Return \/ Expire \/ \E m \in Names : ZCreate(m) \/ ZDelete(m)
 
 Spec == Init /\ [][Next]_vars
 
 \* ------------------------------------------------------------------ properties
 NoViolation == viol = "ok"
 Bounded == ~c.over
-View == <<svars, [c EXCEPT !.out = <<>>], rj, rl, envn, viol, ast>>
+View == <<svars, [c EXCEPT !.out = <<>>], pol, envn, viol, ast>>
 
 \* when no request is pending the client is at rest
 Structural ==
   /\ c.runq = <<>>
   /\ Quiescent(c) =>
-       /\ c.cbq = <<>> /\ c.nq = <<>> /\ c.gl["CW"].pc = "idle" /\ c.nw.pc = "qget"
+       /\ c.cbq = <<>> /\ (c.nw.pc = "qget" => c.nq = <<>>) /\ c.gl["CW"].pc = "idle" /\ c.nw.pc \in {"qget", "dead"}
        /\ c.dlock = "none" /\ c.dwait = <<>>
        /\ \A g \in SGs \cup {"IG"} : c.gl[g].pc = "dead"
   /\ (c.dlock # "none") => c.gl[c.dlock].pc \in {"get", "ex", "gc"}
